@@ -115,6 +115,15 @@ def sym_t(x):
 # asterisk_forms
 
 
+def dotfree(vc, l):
+    """requires: the label contains no dot (recorded for the structural split model in proof mode)"""
+    if vc.mode == "sym":
+        from pyvc.libx_dns import assume_sep_free
+        assume_sep_free(vc, l, ".")
+    else:
+        vc.assume("." not in l)
+
+
 def dotted(labels):
     dn = labels[0]
     for l in labels[1:]:
@@ -127,7 +136,7 @@ def s_forms(vc):
     n = vc.case("dots", [0, 1, 2, 3])
     labels = [vc.sym_str(f"l{i}") for i in range(n + 1)]
     for l in labels:
-        vc.assume(Not(contains(l, ".")))
+        dotfree(vc, l)
     dn = dotted(labels)
     out = vc.call(S + ".asterisk_forms", dn)
     vc.ensure("no_exception", out.ok)
@@ -155,7 +164,7 @@ def s_forms_gn(vc):
         n = vc.case("dots", [0, 1, 2])
         labels = [vc.sym_str(f"l{i}") for i in range(n + 1)]
         for l in labels:
-            vc.assume(Not(contains(l, ".")))
+            dotfree(vc, l)
         name = dotted(labels)
         out = vc.call(S + ".asterisk_forms", dns(vc, name))
         vc.ensure("no_exception", out.ok)
@@ -260,6 +269,7 @@ def s_expire_entries(vc):
     vc.assume(cn0 != cn1)
     k0, k1 = (cn0, sans0), (cn1, sans1)
     name = vc.sym_str("custom_name")
+    vc.assume(name != "*")
     pre = [(name, custom), (k0, g0), ("*", custom), (k1, g1)]
     store = vc.new(S, certs=vc.dict(pre), expire_queue=vc.list([g0, g1]), STORE_CAP=2)
     out = vc.call(S + ".expire", store, new)
@@ -271,8 +281,8 @@ def s_expire_entries(vc):
     post = items_of(vc, store.certs)
     vc.ensure("map.only_keys_of_evicted_removed", len(post) == 3)
     if len(post) == 3:
-        vc.ensure("map.custom_kept", post[0][1] is custom and vc.eq(post[0][0], name) and post[1][1] is custom and vc.eq(post[1][0], "*"))
-        vc.ensure("map.other_generated_kept", post[2][1] is g1 and post[2][0][1] is sans1 and vc.eq(post[2][0][0], cn1))
+        vc.ensure("map.custom_kept", And(post[0][1] is custom, vc.eq(post[0][0], name), post[1][1] is custom, vc.eq(post[1][0], "*")))
+        vc.ensure("map.other_generated_kept", And(post[2][1] is g1, post[2][0][1] is sans1, vc.eq(post[2][0][0], cn1)))
     vc.ensure("inv.I2_tuple_keys_are_queued", all(any(v is x for x in q) for k, v in post if isa(k, tuple)))
 
 
@@ -309,8 +319,9 @@ def s_add_cert(vc):
         if v is entry:
             vc.ensure(f"only_listed_names[{j}]", Or(*[vc.eq(k, w) for w in want]))
         else:
-            vc.ensure(f"frame.other_entries_untouched[{j}]", v is other and vc.eq(k, old) and Not(Or(*[vc.eq(old, w) for w in want[(1 if has_cn else 0):]])))
-    vc.ensure("frame.old_key_kept_or_overwritten", any(vc.mode == "native" and k == old or vc.mode == "sym" and k is old for k, v in post))
+            vc.ensure(f"frame.other_entries_untouched[{j}]", And(v is other, vc.eq(k, old)))
+    # the pre-existing key is still there: either untouched or (if it is one of the registered names) now mapping to the entry
+    vc.ensure("frame.old_key_still_present", Or(*[vc.eq(k, old) for k, v in post]))
     vc.ensure("queue_untouched", len(store.expire_queue) == 0)
 
 
@@ -349,32 +360,42 @@ def dummy_cert_summary(calls):
 
 
 def request_names(vc, shape):
-    """(cn, sans object, list of requested DNS names as strings). shape = (cn dots or None, number of SANs)"""
-    cn_dots, nsan = shape
+    """(cn, sans object, SAN values, `requested`). shape = (dots in the CN or None for no CN, [dots of each DNS SAN]).
+    `requested` = [(guard, name)]: the names that take part in the lookup (the CN only when it is non-empty)."""
+    cn_dots, san_dots = shape
     cn = None
-    names = []
+    requested = []
     if cn_dots is not None:
         labels = [vc.sym_str(f"cn_l{i}") for i in range(cn_dots + 1)]
         for l in labels:
-            vc.assume(Not(contains(l, ".")))
+            dotfree(vc, l)
         cn = dotted(labels)
+        requested.append((len_(cn) > 0, cn))
     sv = []
-    for i in range(nsan):
-        a, b = vc.sym_str(f"san{i}_a"), vc.sym_str(f"san{i}_b")
-        vc.assume(And(Not(contains(a, ".")), Not(contains(b, "."))))
-        sv.append(a + "." + b)
+    for i, nd in enumerate(san_dots):
+        labels = [vc.sym_str(f"san{i}_l{j}") for j in range(nd + 1)]
+        for l in labels:
+            dotfree(vc, l)
+        sv.append(dotted(labels))
+        requested.append((True, sv[-1]))
     sans = gnames(vc, [dns(vc, v) for v in sv])
-    return cn, sans, sv
+    return cn, sans, sv, requested
 
 
-@scenario("get_cert", functions=[S + ".get_cert", S + ".asterisk_forms", S + ".expire", "mitmproxy.certs:_fix_legacy_sans"], z3_timeout_ms=4000)
-def s_get_cert(vc):
-    shape = vc.case("request", [(None, 1), (0, 0), (1, 1), (2, 0)])
+def custom_serves(k, requested):
+    """the registered name k serves one of the requested names (wildcard rule of the store)"""
+    return Or(k == "*", *[And(g, matches(k, x)) for g, x in requested])
+
+
+SHAPES = [(None, [0]), (0, []), (1, [1]), (2, []), (None, [1])]
+
+
+def s_get_cert(vc, shape):
     cached = vc.case("cached", [False, True])
     vc.summary(C + ".fingerprint", fingerprint_summary)
     calls = []
     vc.summary("mitmproxy.certs:dummy_cert", dummy_cert_summary(calls))
-    cn, sans, sv = request_names(vc, shape)
+    cn, sans, sv, requested = request_names(vc, shape)
     # one generated entry for other names is queued; optionally one for exactly the requested names
     ocn = vc.sym_str("other_cn")
     osans = gnames(vc, [dns(vc, ocn)])
@@ -399,11 +420,9 @@ def s_get_cert(vc):
     if not out.ok:
         return
     r = out.result
-    requested = ([cn] if cn is not None else []) + sv
     post = items_of(vc, store.certs)
     q = store.expire_queue
-    custom_hit = [Or(ckeys[i] == "*", *[matches(ckeys[i], x) for x in requested]) for i in range(2)]
-    # the CN only takes part in the lookup when it is non-empty
+    custom_hit = [custom_serves(ckeys[i], requested) for i in range(2)]
     any_custom = Or(*custom_hit)
     is_custom = [r is customs[i] for i in range(2)]
     if any(is_custom):
@@ -414,7 +433,7 @@ def s_get_cert(vc):
         vc.ensure("custom.store_unchanged", len(post) == len(pre_items) and all(a[1] is b[1] for a, b in zip(post, pre_items)) and len(q) == len(queue))
     elif r is g_same and cached:
         # (b) the cached entry for exactly these names
-        vc.ensure_kf("cached.no_custom_match", Not(any_custom), "KF-C17-1", empty_name_key(ckeys, requested))
+        vc.ensure_kf("cached.no_custom_match", Not(any_custom), "KF-C17-1", empty_name_key(ckeys, sv))
         vc.ensure("cached.nothing_generated", len(calls) == 0)
         vc.ensure("cached.store_unchanged", len(post) == len(pre_items) and all(a[1] is b[1] for a, b in zip(post, pre_items)) and len(q) == len(queue))
     else:
@@ -425,17 +444,17 @@ def s_get_cert(vc):
         c = calls[0]
         vc.ensure("fresh.is_the_generated_cert", isa(r, _cls(E)) and r.cert is c["cert"])
         vc.ensure("fresh.exact_names", And(vc.eq(c["cn"], cn), c["sans"] is sans))
-        vc.ensure("fresh.issued_by_default_ca", c["privkey"] == KEY and c["cacert"] is ca._cert and vc.eq(r.privatekey, KEY))
+        vc.ensure("fresh.issued_by_default_ca", And(vc.eq(c["privkey"], KEY), c["cacert"] is ca._cert, vc.eq(r.privatekey, KEY)))
         vc.ensure("fresh.org_and_crl_passed", And(vc.eq(c["organization"], org), vc.eq(c["crl_url"], crl)))
         # (b) generation only when nothing usable is registered or cached
-        vc.ensure_kf("fresh.only_if_no_custom_match", Not(any_custom), "KF-C17-1", empty_name_key(ckeys, requested))
-        vc.ensure_kf("fresh.only_if_not_cached", not cached, "KF-C17-1", empty_name_key(ckeys, requested))
+        vc.ensure_kf("fresh.only_if_no_custom_match", Not(any_custom), "KF-C17-1", empty_name_key(ckeys, sv))
+        vc.ensure_kf("fresh.only_if_not_cached", not cached, "KF-C17-1", empty_name_key(ckeys, sv))
         # stored under exactly (cn, sans) and queued; capacity respected; oldest evicted with its keys
         stored = [(k, v) for k, v in post if v is r]
         evict = vc.branch(len(queue) + 1 > cap)
         vc.ensure("fresh.bound", len(q) <= cap)
         if not evict:
-            vc.ensure("fresh.stored_under_requested_key", len(stored) == 1 and isa(stored[0][0], tuple) and vc.eq(stored[0][0], (cn, sans)))
+            vc.ensure("fresh.stored_under_requested_key", And(len(stored) == 1 and isa(stored[0][0], tuple), vc.eq(stored[0][0], (cn, sans)) if stored else False))
             vc.ensure("fresh.queued_last", len(q) == len(queue) + 1 and q[-1] is r)
             vc.ensure("fresh.custom_keys_kept", all(any(v is customs[i] and k is ckeys[i] for k, v in post) for i in range(2)))
         else:
@@ -445,11 +464,17 @@ def s_get_cert(vc):
         vc.ensure("inv.I2_tuple_keys_are_queued", all(any(v is x for x in q) for k, v in post if isa(k, tuple)))
 
 
-def empty_name_key(ckeys, requested):
-    """class of KF-C17-1: a custom certificate is registered under the empty name and an empty DNS name is requested"""
-    if not requested:
+for _i, _shape in enumerate(SHAPES):
+    # one scenario per request shape (run in parallel): CN with 0..2 dots or none x DNS SANs with 0..1 dots
+    scenario(f"get_cert[cn={_shape[0]},sans={_shape[1]}]", functions=[S + ".get_cert", S + ".asterisk_forms", S + ".expire", "mitmproxy.certs:_fix_legacy_sans"],
+             z3_timeout_ms=1500)(lambda vc, _shape=_shape: s_get_cert(vc, _shape))
+
+
+def empty_name_key(ckeys, sv):
+    """class of KF-C17-1: a custom certificate is registered under the empty name and an empty DNS SAN is requested"""
+    if not sv:
         return False
-    return And(Or(*[k == "" for k in ckeys]), Or(*[x == "" for x in requested]))
+    return And(Or(*[k == "" for k in ckeys]), Or(*[x == "" for x in sv]))
 
 
 def _cls(ref):
@@ -460,11 +485,11 @@ def _cls(ref):
 @scenario("get_cert.repeated_request", functions=[S + ".get_cert", S + ".expire"], z3_timeout_ms=4000)
 def s_repeat(vc):
     """Two requests for equal names (distinct but equal argument objects), nothing in between: same entry (capacity >= 1)."""
-    shape = vc.case("request", [(None, 1), (0, 0), (1, 1)])
+    shape = vc.case("request", SHAPES[:3])
     vc.summary(C + ".fingerprint", fingerprint_summary)
     calls = []
     vc.summary("mitmproxy.certs:dummy_cert", dummy_cert_summary(calls))
-    cn, sans, sv = request_names(vc, shape)
+    cn, sans, sv, requested = request_names(vc, shape)
     sans_again = gnames(vc, [dns(vc, v) for v in sv])
     cap = vc.sym_int("cap", lo=1)
     store, ckeys, customs, ca = mk_store(vc, 1, cap, [], [])
@@ -473,16 +498,190 @@ def s_repeat(vc):
     vc.ensure("no_exception", o1.ok and o2.ok)
     if not (o1.ok and o2.ok):
         return
-    requested = ([cn] if cn is not None else []) + sv
-    vc.ensure_kf("same_entry", o1.result is o2.result, "KF-C17-1", empty_name_key(ckeys, requested))
-    vc.ensure_kf("at_most_one_generation", len(calls) <= 1, "KF-C17-1", empty_name_key(ckeys, requested))
+    vc.ensure_kf("same_entry", o1.result is o2.result, "KF-C17-1", empty_name_key(ckeys, sv))
+    vc.ensure_kf("at_most_one_generation", len(calls) <= 1, "KF-C17-1", empty_name_key(ckeys, sv))
     vc.ensure("bound", len(store.expire_queue) <= cap)
 
 
 # =============================================================================================
-# T2
+# T2: the real CertStore (real dummy_cert, real cryptography objects) over all operation sequences up to a bound, checked
+# against an executable model: FIFO cache of capacity CAP keyed by (cn, sans) + the wildcard rule for custom certificates.
+
+_CA = None
+
+
+def _ca():
+    """one CA per process (key generation is slow)"""
+    global _CA
+    if _CA is None:
+        from mitmproxy import certs
+        key, ca = certs.create_ca("verif", "verif CA", 2048)
+        _CA = (key, ca)
+    return _CA
+
+
+def rule_matches(k: str, x: str) -> bool:
+    """registered name k serves requested name x (independent statement of the store's wildcard rule)"""
+    if k == "*" or k == x:
+        return True
+    if k.startswith("*."):
+        suffix = k[1:]  # ".example.com"
+        return any(x[i:] == suffix for i in range(len(x)) if x[i] == ".")
+    return False
+
+
+def _new_store(cap):
+    from mitmproxy import certs
+    key, ca = _ca()
+    st = certs.CertStore(key, certs.Cert(ca), None, b"", None)
+    st.STORE_CAP = cap
+    return st
+
+
+def _check_invariant(b, st, cap, inp):
+    q = st.expire_queue
+    if len(q) > cap:
+        b.fail("certstore.bound.queue_le_cap", inp, f"len(queue)={len(q)} cap={cap}")
+    tk = [(k, v) for k, v in st.certs.items() if isinstance(k, tuple)]
+    if len(tk) > cap:
+        b.fail("certstore.bound.generated_keys_le_cap", inp, f"{len(tk)} generated keys, cap={cap}")
+    for k, v in tk:
+        if not any(v is x for x in q):
+            b.fail("certstore.inv.generated_key_is_queued", inp, f"key {k!r} maps to an entry that is not in the queue")
+    if len({id(x) for x in q}) != len(q):
+        b.fail("certstore.inv.queue_entries_distinct", inp, "duplicate entry in expire_queue")
+
+
+def _run_sequence(b, seq, names, customs, cap, kf=False):
+    """seq of ("get", name index) / ("add", custom index). Returns nothing; records failures."""
+    from cryptography import x509
+    from mitmproxy import certs
+    key, ca = _ca()
+    st = _new_store(cap)
+    registered = {}  # key string -> custom entry (model of the custom part of the map)
+    cache = []  # model FIFO: [(key tuple, entry)]
+    seen_entries = []
+    inp = {"seq": [list(x) for x in seq], "cap": cap}
+    sfx = "[KF-C17-1]" if kf else ""
+    for op, i in seq:
+        if op == "add":
+            entry, extra = customs[i]
+            st.add_cert(entry, *extra)
+            if entry.cert.cn:
+                registered[entry.cert.cn] = entry
+            for a in entry.cert.altnames:
+                registered[str(a.value)] = entry
+            for e in extra:
+                registered[e] = entry
+            for k, v in registered.items():
+                if st.certs.get(k) is not v:
+                    b.fail("certstore.add_cert.registers_cn_sans_names", inp, f"key {k!r} not mapped to the registered entry")
+        else:
+            cn, sanvals = names[i]
+            sans = [x509.DNSName(v) for v in sanvals]
+            r = st.get_cert(cn, sans)
+            req = ([cn] if cn else []) + list(sanvals)
+            allowed_custom = [v for k, v in registered.items() if any(rule_matches(k, x) for x in req)]
+            is_custom = any(r is v for v in registered.values())
+            mkey = (cn, tuple(sanvals))
+            if is_custom:
+                if not any(r is v for v in allowed_custom):
+                    b.fail("certstore.custom_only_for_matching_name", inp, f"request {req} served custom cert {r.cert!r}")
+            else:
+                # generated: exactly the requested names, issued by the CA
+                got_sans = [str(a.value) for a in r.cert.altnames]
+                if got_sans != list(sanvals) or (r.cert.cn or None) != (cn if cn and len(cn) < 64 else None):
+                    b.fail("certstore.generated_for_exactly_requested_names", inp, f"request cn={cn!r} sans={sanvals} got cn={r.cert.cn!r} sans={got_sans}")
+                if r.cert.issuer != certs.Cert(ca).subject:
+                    b.fail("certstore.generated_issued_by_ca", inp, f"issuer {r.cert.issuer}")
+                if allowed_custom:
+                    b.fail("certstore.custom_preferred_over_generation" + sfx, inp, f"request {req}: a registered certificate matches but a generated one was served")
+                hit = [e for k, e in cache if k == mkey]
+                if hit:
+                    if r is not hit[0]:
+                        b.fail("certstore.repeated_request_same_entry" + sfx, inp, f"request {req} cached but a different certificate was returned")
+                        cache = [(k, e) for k, e in cache if k != mkey]
+                        cache.append((mkey, r))
+                else:
+                    if any(r is e for e in seen_entries):
+                        b.fail("certstore.evicted_entry_not_served_again", inp, f"request {req}")
+                    cache.append((mkey, r))
+                    if len(cache) > cap:
+                        cache.pop(0)
+                seen_entries.append(r)
+            if not kf:
+                # model and real store agree on what is cached
+                real_keys = sorted(((k[0], tuple(str(a.value) for a in k[1])) for k in st.certs if isinstance(k, tuple)), key=repr)
+                if real_keys != sorted((k for k, _ in cache), key=repr):
+                    b.fail("certstore.cache_contents_match_fifo_model", inp, f"real {real_keys} model {[k for k, _ in cache]}")
+        if not kf:
+            _check_invariant(b, st, cap, inp)
+        else:
+            if len(st.expire_queue) > cap:
+                b.fail("certstore.bound.queue_le_cap", inp, f"len(queue)={len(st.expire_queue)}")
 
 
 def bounded(tier, seed):
+    import itertools
+    from pathlib import Path
+    from cryptography import x509
+    from mitmproxy import certs
+
     b = Bounded()
+    key, ca = _ca()
+    cap = 2
+    depth = 4 if tier == "quick" else 6
+    names = [("a.example", ["a.example"]), ("b.example", ["b.example", "www.b.example"]), ("x.a.example", ["x.a.example"]), (None, ["c.other"])]
+
+    def custom(cn, sanvals):
+        c = certs.dummy_cert(key, ca, cn, [x509.DNSName(v) for v in sanvals])
+        return certs.CertStoreEntry(c, key, Path("custom.pem"), [c])
+
+    customs = [(custom("a.example", ["a.example"]), ()), (custom("wild", ["*.a.example"]), ("*.b.example",))]
+    syms = [("get", i) for i in range(4)] + [("add", j) for j in range(2)]
+    b.rule = ("operation sequences over {get_cert for 4 name sets (exact, with extra SAN, sub-domain, no CN), add_cert of 2 custom certificates (exact name; wildcard SAN + wildcard name)} "
+              f"on the real CertStore with STORE_CAP={cap} and the real dummy_cert; after every operation: bound, class invariant, returned entry is custom-and-matching or generated for exactly the "
+              "requested names, identity of repeated requests and cache contents equal to a FIFO model; distinct = sequence; non-trivial = more distinct generated requests than the capacity or a custom registration")
+    b.bound = f"all sequences of length <= {depth} over 6 operations"
+    b.exhaustive = True
+    for n in range(1, depth + 1):
+        for seq in itertools.product(syms, repeat=n):
+            _run_sequence(b, seq, names, customs, cap)
+            gets = {i for op, i in seq if op == "get"}
+            b.case(seq, nontrivial=len(gets) > cap or any(op == "add" for op, _ in seq))
+    # star certificate and the class of KF-C17-1 (custom certificate registered under the empty name, empty DNS SAN requested)
+    star = [(custom("star", ["star.example"]), ("*",))]
+    for n in range(1, 4):
+        for seq in itertools.product([("get", 0), ("get", 3), ("add", 0)], repeat=n):
+            _run_sequence(b, seq, names, star, cap)
+            b.case(("star", seq))
+    empty = [(custom("e", ["e.example"]), ("",))]
+    enames = [(None, [""]), ("a.example", ["a.example", ""]), ("a.example", ["a.example"])]
+    for n in range(1, 5):
+        for seq in itertools.product([("get", 0), ("get", 1), ("get", 2), ("add", 0)], repeat=n):
+            has_kf = False
+            reg = False
+            for op, i in seq:
+                reg = reg or op == "add"
+                has_kf = has_kf or (op == "get" and reg and i in (0, 1))
+            _run_sequence(b, seq, enames, empty, cap, kf=has_kf)
+            b.case(("empty", seq))
+    # asterisk_forms against the rule on many names (incl. empty labels, leading/trailing dots, > 3 dots)
+    alphabet = ["a", "bb", "", "*"]
+    for n in range(1, 6):
+        for labels in itertools.product(alphabet, repeat=n):
+            dn = ".".join(labels)
+            forms = certs.CertStore.asterisk_forms(dn)
+            b.case(("forms", dn))
+            if forms[0] != dn or "*" in forms[1:] or len(forms) != n:
+                b.fail("asterisk_forms.shape", dn, repr(forms))
+            for f in forms[1:]:
+                if not (f.startswith("*.") and dn.endswith(f[1:])):
+                    b.fail("asterisk_forms.label_suffix", dn, repr(forms))
+            want = [dn] + ["*." + ".".join(labels[j:]) for j in range(1, n)]
+            if forms != want:
+                b.fail("asterisk_forms.all_label_suffixes_most_specific_first", dn, f"{forms} != {want}")
+            for f in forms:
+                if not rule_matches(f, dn):
+                    b.fail("asterisk_forms.consistent_with_rule", dn, f)
     return b
